@@ -518,13 +518,7 @@ theorem copy_pen (dst : PenObj) (src : Pen) (ow : Bool) : (dst.copy src ow).pen 
 
 theorem copyAttrSelf_pen (p : PenObj) (a : PenAttr) : (p.copyAttrSelf a).pen = p.pen.copyAttrSelf a := by
   unfold copyAttrSelf Pen.copyAttrSelf
-  split
-  · exact setBoolAttr_pen _ _ _
-  · exact setIntAttr_pen _ _ _
-  · simp only [thaw_pen, setColourAttr_pen, freeze_pen]
-    split
-    · rw [setColourAttrRgb8_pen, setColourAttr_pen, freeze_pen]
-    · rw [setColourAttr_pen, freeze_pen]
+  exact copyAttr_pen _ _ _
 
 theorem descCore_pen (sc : Pen.Scanf) (o : PenObj) (a : PenAttr) (s : List UInt8) (hi : Int) :
     ((o.descCore sc a s hi).1, (o.descCore sc a s hi).2.pen) = Pen.descCore sc o.pen a s hi := by
@@ -900,30 +894,6 @@ end PenScan
 namespace PenHistory
 open Pen
 
-theorem copyAttrSelf_drops_rgb8 (p : Pen) (a : PenAttr) (h : p.hasColourAttrRgb8 a = true) :
-    (p.copyAttrSelf a).hasColourAttrRgb8 a = false := by
-  cases a <;> simp_all [Pen.copyAttrSelf, Pen.hasColourAttrRgb8, PenAttr.type, Pen.setColourAttr]
-
-theorem abs_rgb (p : Pen) (a : PenAttr) (h : p.hasColourAttrRgb8 a = true) :
-    p.abs.read a = .c (p.getColourAttr a) (some (p.getColourAttrRgb8 a)) := by
-  rw [abs_read]
-  cases a <;> simp_all [Pen.typedRead, Pen.hasColourAttrRgb8, PenAttr.type]
-
-theorem abs_copyAttrSelf_ne (p : Pen) (a : PenAttr) (h : p.hasColourAttrRgb8 a = true) :
-    (p.copyAttrSelf a).abs ≠ PenDict.copyAttr p.abs p.abs a := by
-  intro he
-  have h1 := congrFun he a
-  have h2 := copyAttrSelf_drops_rgb8 p a h
-  have h3 : (p.copyAttrSelf a).abs.read a = (PenDict.copyAttr p.abs p.abs a).read a := by
-    simp [PenDict.read, h1]
-  rw [abs_read] at h3
-  simp [PenDict.copyAttr, PenDict.read, PenDict.set] at h3
-  have h4 := abs_rgb p a h
-  simp [PenDict.read] at h4
-  rw [h4] at h3
-  cases a <;> simp_all [Pen.typedRead, PenAttr.type, Pen.hasColourAttrRgb8]
-
-
 /-! ### Histories -/
 
 /-- The operations of a history over pens numbered by `Nat`. -/
@@ -972,37 +942,14 @@ def PenOp.spec (sc : Scanf) (st : Nat → PenDict) : PenOp → (Nat → PenDict)
     | some (idx, none) => upd st i ((st i).setColour a (store a.width a.signed idx))
     | some (idx, some rgb) => upd st i (((st i).setColour a (store a.width a.signed idx)).setRgb8 a rgb)
 
-/-- The one trigger of the known defect: `copy_attr(p, p, a)` on a pen whose `a` carries an RGB8. -/
-def PenOp.SelfCopyAttrWithRgb8 (st : Nat → Pen) : PenOp → Prop
-  | .copyAttr d s a => d = s ∧ (st d).hasColourAttrRgb8 a = true
-  | _ => False
-
 theorem dict_copy_self (d : PenDict) (ow : Bool) : PenDict.copy d d ow = d := by
   funext x; unfold PenDict.copy; cases h : d x <;> simp
 
-theorem abs_copyAttrSelf (p : Pen) (a : PenAttr) (hp : p.WF) (h : p.hasColourAttrRgb8 a = false) :
-    (p.copyAttrSelf a).abs = PenDict.copyAttr p.abs p.abs a := by
-  have hc := abs_copyAttr p p a hp
-  have : p.copyAttrSelf a = p.copyAttr p a := by
-    unfold Pen.copyAttrSelf Pen.copyAttr
-    split
-    · rfl
-    · rfl
-    · simp only [h]
-      have : (p.setColourAttr a (p.getColourAttr a)).hasColourAttrRgb8 a = false := by
-        cases a <;> simp [Pen.setColourAttr, Pen.hasColourAttrRgb8] <;> simpa [Pen.hasColourAttrRgb8] using h
-      simp [this]
-  rw [this]; exact hc
+/-- Aliased `copy_attr` is the dictionary `copyAttr` of a pen onto itself (the source is read first). -/
+theorem abs_copyAttrSelf (p : Pen) (a : PenAttr) (hp : p.WF) :
+    (p.copyAttrSelf a).abs = PenDict.copyAttr p.abs p.abs a := abs_copyAttr p p a hp
 
-theorem wf_copyAttrSelf (p : Pen) (a : PenAttr) (h : p.WF) : (p.copyAttrSelf a).WF := by
-  unfold Pen.copyAttrSelf
-  split
-  · exact wf_setBoolAttr _ _ _ h
-  · exact wf_setIntAttr _ _ _ h
-  · simp only
-    split
-    · exact wf_setColourAttrRgb8 _ _ _ (wf_setColourAttr _ _ _ h)
-    · exact wf_setColourAttr _ _ _ h
+theorem wf_copyAttrSelf (p : Pen) (a : PenAttr) (h : p.WF) : (p.copyAttrSelf a).WF := wf_copyAttr p p a h
 
 theorem upd_wf (st : Nat → Pen) (i : Nat) (p : Pen) (h : ∀ i, (st i).WF) (hp : p.WF) : ∀ k, (upd st i p k).WF := by
   intro k; unfold upd; split
@@ -1031,8 +978,7 @@ theorem PenOp.run_wf (sc : Scanf) (st : Nat → Pen) (op : PenOp) (h : ∀ i, (s
   | desc i a s => exact upd_wf _ _ _ h (wf_setColourAttrDesc _ _ _ _ (h _))
 
 /-- One operation refines its dictionary meaning. -/
-theorem PenOp.run_refines (sc : Scanf) (st : Nat → Pen) (op : PenOp) (h : ∀ i, (st i).WF)
-    (hno : ¬ op.SelfCopyAttrWithRgb8 st) :
+theorem PenOp.run_refines (sc : Scanf) (st : Nat → Pen) (op : PenOp) (h : ∀ i, (st i).WF) :
     (fun i => (op.run sc st i).abs) = op.spec sc (fun i => (st i).abs) := by
   funext k
   cases op with
@@ -1055,11 +1001,7 @@ theorem PenOp.run_refines (sc : Scanf) (st : Nat → Pen) (op : PenOp) (h : ∀ 
     · next hk =>
       by_cases hds : d = s
       · subst hds
-        have hr : (st d).hasColourAttrRgb8 a = false := by
-          cases hh : (st d).hasColourAttrRgb8 a
-          · rfl
-          · exact absurd ⟨rfl, hh⟩ hno
-        simp [abs_copyAttrSelf _ _ (h d) hr]
+        simp [abs_copyAttrSelf _ _ (h d)]
       · simp [hds, abs_copyAttr _ _ _ (h s)]
     · rfl
   | clone d s => simp only [PenOp.run, PenOp.spec, upd]; split <;> simp [abs_clone _ (h s)]
@@ -1082,37 +1024,18 @@ def specOps (sc : Scanf) (st : Nat → PenDict) : List PenOp → (Nat → PenDic
   | [] => st
   | op :: ops => specOps sc (op.spec sc st) ops
 
-/-- No step of the history is the known trigger. -/
-def NoSelfCopyAttrWithRgb8 (sc : Scanf) (st : Nat → Pen) : List PenOp → Prop
-  | [] => True
-  | op :: ops => ¬ op.SelfCopyAttrWithRgb8 st ∧ NoSelfCopyAttrWithRgb8 sc (op.run sc st) ops
-
-instance (st : Nat → Pen) (op : PenOp) : Decidable (op.SelfCopyAttrWithRgb8 st) := by
-  cases op <;> unfold PenOp.SelfCopyAttrWithRgb8 <;> exact inferInstance
-
-def decNoSelfCopyAttrWithRgb8 (sc : Scanf) : (st : Nat → Pen) → (ops : List PenOp) →
-    Decidable (NoSelfCopyAttrWithRgb8 sc st ops)
-  | _, [] => isTrue trivial
-  | st, op :: ops =>
-    have := decNoSelfCopyAttrWithRgb8 sc (op.run sc st) ops
-    show Decidable (¬ op.SelfCopyAttrWithRgb8 st ∧ NoSelfCopyAttrWithRgb8 sc (op.run sc st) ops) from inferInstance
-
-instance (sc : Scanf) (st : Nat → Pen) (ops : List PenOp) : Decidable (NoSelfCopyAttrWithRgb8 sc st ops) :=
-  decNoSelfCopyAttrWithRgb8 sc st ops
-
 theorem runOps_wf (sc : Scanf) (ops : List PenOp) (st : Nat → Pen) (h : ∀ i, (st i).WF) : ∀ i, (runOps sc st ops i).WF := by
   induction ops generalizing st with
   | nil => exact h
   | cons op ops ih => exact ih _ (PenOp.run_wf sc st op h)
 
-theorem runOps_refines (sc : Scanf) (ops : List PenOp) (st : Nat → Pen) (h : ∀ i, (st i).WF)
-    (hno : NoSelfCopyAttrWithRgb8 sc st ops) :
+theorem runOps_refines (sc : Scanf) (ops : List PenOp) (st : Nat → Pen) (h : ∀ i, (st i).WF) :
     (fun i => (runOps sc st ops i).abs) = specOps sc (fun i => (st i).abs) ops := by
   induction ops generalizing st with
   | nil => rfl
   | cons op ops ih =>
     simp only [runOps, specOps]
-    rw [ih _ (PenOp.run_wf sc st op h) hno.2, PenOp.run_refines sc st op h hno.1]
+    rw [ih _ (PenOp.run_wf sc st op h), PenOp.run_refines sc st op h]
 
 end PenHistory
 
